@@ -421,7 +421,7 @@ package profile
 //@       && (exists i int :: 0 <= i && i < len(srcs) && result0.Period == srcs[i].Period)
 //@   ensures time_earliest: result1 == nil ==> (forall i int :: 0 <= i && i < len(srcs) && srcs[i].TimeNanos != 0 ==> result0.TimeNanos != 0 && result0.TimeNanos <= srcs[i].TimeNanos)
 //@       && (result0.TimeNanos != 0 ==> exists i int :: 0 <= i && i < len(srcs) && result0.TimeNanos == srcs[i].TimeNanos)
-//@   ensures duration_sum: result1 == nil ==> result0.DurationNanos == sumdur(srcs, len(srcs))
+//@   ensures duration_sum: result1 == nil ==> result0.DurationNanos == old(sumdur(srcs, len(srcs)))
 //@   ensures frames_first: result1 == nil ==> result0.DropFrames == srcs[0].DropFrames && result0.KeepFrames == srcs[0].KeepFrames
 //@   ensures types: result1 == nil ==> len(result0.SampleType) == len(srcs[0].SampleType) && result0.PeriodType != nil
 //@       && result0.PeriodType.Type == srcs[0].PeriodType.Type && result0.PeriodType.Unit == srcs[0].PeriodType.Unit
@@ -440,6 +440,50 @@ package profile
 //@     invariant ($i == 0 && period == 0) || exists j int :: 0 <= j && j < $i && period == srcs[j].Period
 //@     invariant timeNanos >= 0 && (forall j int :: 0 <= j && j < $i && srcs[j].TimeNanos != 0 ==> timeNanos != 0 && timeNanos <= srcs[j].TimeNanos)
 //@     invariant timeNanos != 0 ==> exists j int :: 0 <= j && j < $i && timeNanos == srcs[j].TimeNanos
-//@     invariant durationNanos == sumdur(srcs, $i)
+//@     invariant forall n int :: n == $i ==> durationNanos == old(sumdur(srcs, n))
 //@   loop 3
 //@     invariant 0 <= $i && $i <= len(s.Comments)
+//@   loop 4
+//@     invariant 0 <= $i && $i <= len(srcs[0].SampleType)
+//@     invariant p != nil && fresh(p) && fresh(p.SampleType) && len(p.SampleType) == len(srcs[0].SampleType)
+//@     invariant forall j int, k int :: 0 <= j && j < len(srcs) && 0 <= k && k < len(srcs[j].SampleType) ==> srcs[j].SampleType[k] == old(srcs[j].SampleType[k])
+//@     invariant forall k int :: 0 <= k && k < $i ==> p.SampleType[k] != nil && fresh(p.SampleType[k])
+//@          && p.SampleType[k].Type == srcs[0].SampleType[k].Type && p.SampleType[k].Unit == srcs[0].SampleType[k].Unit
+
+//@ func copyValueType arith bv
+//@   ensures isnil: vt == nil ==> result == nil
+//@   ensures copied: vt != nil ==> result != nil && fresh(result) && result.Type == vt.Type && result.Unit == vt.Unit
+
+// Location.key: the key is faithful to (address relative to the mapping, mapping id, folded flag) and
+// its line string is the join of 3 parts per inline line: function id (or ""), line, column, in order.
+//@ func Location.key arith bv
+//@   requires l != nil && forall i int :: 0 <= i && i < len(l.Line) ==> true
+//@   ensures addr: result.addr == ite(l.Mapping != nil, l.Address - l.Mapping.Start, l.Address)
+//@   ensures mapping: result.mappingID == ite(l.Mapping != nil, l.Mapping.ID, 0)
+//@   ensures folded: result.isFolded <==> l.IsFolded
+//@   ensures parts: joinlen(result.lines) == 3 * len(l.Line)
+//@   ensures lines: forall i int :: 0 <= i && i < len(l.Line) ==>
+//@       joinpart(result.lines, 3*i) == ite(l.Line[i].Function != nil, fmtuint(l.Line[i].Function.ID, 16), "")
+//@       && joinpart(result.lines, 3*i+1) == fmtint(l.Line[i].Line, 16)
+//@       && joinpart(result.lines, 3*i+2) == fmtint(l.Line[i].Column, 16)
+//@   loop 1
+//@     invariant 0 <= $i && $i <= len(l.Line) && len(lines) == 3 * len(l.Line) && fresh(lines)
+//@     invariant forall j int :: 0 <= j && j < $i ==>
+//@       lines[3*j] == ite(l.Line[j].Function != nil, fmtuint(l.Line[j].Function.ID, 16), "")
+//@       && lines[3*j+1] == fmtint(l.Line[j].Line, 16)
+//@       && lines[3*j+2] == fmtint(l.Line[j].Column, 16)
+//@     invariant forall k int :: 3 * $i <= k && k < len(lines) ==> lines[k] == ""
+
+// Two locations have the same key exactly when they agree on everything the key is meant to capture.
+//@ lemma location_key_injective arith bv
+//@   vars l1 *Location, l2 *Location
+//@   assume l1 != nil && l2 != nil
+//@   call k1 := Location.key(l1)
+//@   call k2 := Location.key(l2)
+//@   conclude scalars: k1 == k2 ==> ite(l1.Mapping != nil, l1.Address - l1.Mapping.Start, l1.Address) == ite(l2.Mapping != nil, l2.Address - l2.Mapping.Start, l2.Address)
+//@       && ite(l1.Mapping != nil, l1.Mapping.ID, 0) == ite(l2.Mapping != nil, l2.Mapping.ID, 0) && (l1.IsFolded <==> l2.IsFolded)
+//@   conclude depth: k1 == k2 ==> len(l1.Line) == len(l2.Line)
+//@   conclude lines: k1 == k2 ==> forall i int :: 0 <= i && i < len(l1.Line) ==>
+//@       l1.Line[i].Line == l2.Line[i].Line && l1.Line[i].Column == l2.Line[i].Column
+//@       && ((l1.Line[i].Function == nil) <==> (l2.Line[i].Function == nil))
+//@       && (l1.Line[i].Function != nil ==> l1.Line[i].Function.ID == l2.Line[i].Function.ID)
